@@ -4,7 +4,6 @@ package main
 
 import (
 	"fmt"
-	"go/token"
 	"strings"
 
 	"golang.org/x/tools/go/ssa"
@@ -42,19 +41,19 @@ func checkC20(res *Result) {
 			continue
 		}
 		header = hs[0]
-		body := write.Common().Args[0]
-		res.check(header.Common().Args[2] == body, "C20-R1", e.name, p.pos(write), "the bytes written are the bytes whose digest was put in the headers (same value)", "addResponseHeaders and Write receive different values: the body can differ from what the Digest covers")
+		body := ff.resolveAt(write, write.Common().Args[0])
+		res.check(ff.resolveAt(header, header.Common().Args[2]) == body, "C20-R1", e.name, p.pos(write), "the bytes written are the bytes whose digest was put in the headers (same value)", "addResponseHeaders and Write receive different values: the body can differ from what the Digest covers")
 		// body = json.Marshal(streams.Serialize(x))
 		mv, okM := unwrapExtract(body)
 		mc, isCall := mv.(*ssa.Call)
 		okChain := okM && isCall && staticName(mc) == "json.Marshal"
 		var src ssa.Value
 		if okChain {
-			sv, _ := unwrapExtract(unwrap(mc.Call.Args[0]))
+			sv, _ := unwrapExtract(unwrap(ff.resolveAt(mc, mc.Call.Args[0])))
 			sc, ok := sv.(*ssa.Call)
 			okChain = ok && staticName(sc) == "streams.Serialize"
 			if okChain {
-				src = unwrap(sc.Call.Args[0])
+				src = unwrap(ff.resolveAt(sc, sc.Call.Args[0]))
 			}
 		}
 		res.check(okChain, "C20-R1", e.name, p.pos(write), "the body is json.Marshal(streams.Serialize(x))", "the written value is not built that way")
@@ -77,7 +76,7 @@ func checkC20(res *Result) {
 					ser := mc.Call.Args[0]
 					_ = ser
 					sv, _ := unwrapExtract(unwrap(mc.Call.Args[0]))
-					okD = unwrap(d.Call.Args[0]) == src && dominates(d, sv.(*ssa.Call)) && ff.has(sv.(*ssa.Call), d, fNIL, "")
+					okD = unwrap(ff.resolveAt(d, d.Call.Args[0])) == src && dominates(d, sv.(*ssa.Call)) && ff.has(sv.(*ssa.Call), d, fNIL, "")
 				}
 				res.check(okD, "C20-R3", e.name, p.pos(fn), "dedupeOrderedItems(x) succeeded before x is serialised", "missing, applied to another value, or not dominating Serialize")
 			}
@@ -88,7 +87,7 @@ func checkC20(res *Result) {
 				sv, _ := unwrapExtract(unwrap(mc.Call.Args[0]))
 				okS := false
 				for _, c := range findCalls(E, fn, "clearSensitiveFields") {
-					if unwrap(c.Common().Args[0]) == src && dominates(c, sv.(*ssa.Call)) {
+					if unwrap(ff.resolveAt(c, c.Common().Args[0])) == src && dominates(c, sv.(*ssa.Call)) {
 						okS = true
 					}
 				}
@@ -123,7 +122,6 @@ func checkC20(res *Result) {
 
 	// R2
 	if fn := p.MustFunc(res, "C20-R2", "addResponseHeaders"); fn != nil {
-		g := flowOf(fn)
 		sets := map[string]ssa.CallInstruction{}
 		for _, ci := range callsIn(fn) {
 			if staticName(ci) == "(http.Header).Set" {
@@ -146,50 +144,20 @@ func checkC20(res *Result) {
 			res.bad("C20-R2", fname(fn), p.pos(fn), "Date is set", "missing")
 		}
 		if c := sets["Digest"]; c != nil {
-			v := c.Common().Args[2]
-			has := func(name string) *ssa.Call {
-				var out *ssa.Call
-				for x := range g.backward(v) {
-					if cc, ok := x.(*ssa.Call); ok && staticName(cc) == name {
-						out = cc
-					}
-				}
-				return out
+			t := termOf(c.Common().Args[2], nil, 0)
+			var enc, sum *term
+			okShape := t.op == "concat" && len(t.args) == 2 && t.args[0].op == "const" && t.args[0].s == "SHA-256=" && isCallTerm(t.args[1], "(base64.Encoding).EncodeToString")
+			if okShape {
+				enc = t.args[1]
 			}
-			sum := has("sha256.Sum256")
-			enc := has("(base64.Encoding).EncodeToString")
-			str := has("(bytes.Buffer).String")
-			okSum := sum != nil && isParamNamed(sum.Call.Args[0], "responseContent")
-			okEnc := false
-			if enc != nil {
-				if ld, ok := enc.Call.Args[0].(*ssa.UnOp); ok {
-					if gl, ok := ld.X.(*ssa.Global); ok && gl.Name() == "StdEncoding" {
-						okEnc = anyBackward(g, enc.Call.Args[1], func(x ssa.Value) bool { return x == ssa.Value(sum) })
-					}
-				}
+			okEnc := enc != nil && len(enc.args) == 2 && enc.args[0].op == "global" && enc.args[0].s == "StdEncoding"
+			if okEnc && enc.args[1].op == "slice" && isCallTerm(enc.args[1].args[0], "sha256.Sum256") {
+				sum = enc.args[1].args[0]
 			}
-			res.check(okSum, "C20-R2", fname(fn), p.pos(c), "the digest is sha256.Sum256 of exactly the bytes passed in", "Sum256 missing or applied to something else")
-			res.check(okEnc, "C20-R2", fname(fn), p.pos(c), "the digest is encoded with base64.StdEncoding", "different encoding or input")
-			// prefix writes, in order
-			var writes []string
-			var last ssa.CallInstruction
-			okOrder := true
-			for _, ci := range callsIn(fn) {
-				if staticName(ci) == "(bytes.Buffer).WriteString" {
-					if last != nil && !dominates(last, ci) {
-						okOrder = false
-					}
-					last = ci
-					if s, ok := stringConst(ci.Common().Args[1]); ok {
-						writes = append(writes, s)
-					} else if anyBackward(g, ci.Common().Args[1], func(x ssa.Value) bool { return x == ssa.Value(enc) }) {
-						writes = append(writes, "<base64>")
-					} else {
-						writes = append(writes, "?")
-					}
-				}
-			}
-			res.check(okOrder && strings.Join(writes, "") == "SHA-256=<base64>" && str != nil, "C20-R2", fname(fn), p.pos(c), "Digest is \"SHA-256=\" followed by the base64 digest", fmt.Sprintf("buffer receives %v", writes))
+			okSum := sum != nil && len(sum.args) == 1 && sum.args[0].op == "param" && sum.args[0].s == "responseContent"
+			res.check(okSum, "C20-R2", fname(fn), p.pos(c), "the digest is sha256.Sum256 of exactly the bytes passed in", "Sum256 missing or applied to something else: "+t.String())
+			res.check(okEnc, "C20-R2", fname(fn), p.pos(c), "the digest is encoded with base64.StdEncoding", "different encoding or input: "+t.String())
+			res.check(okShape, "C20-R2", fname(fn), p.pos(c), "Digest is \"SHA-256=\" followed by the base64 digest", "value is "+t.String())
 		} else {
 			res.bad("C20-R2", fname(fn), p.pos(fn), "Digest is set", "missing")
 		}
@@ -288,42 +256,8 @@ func isCallNamedOrLabel(E *Effects, v ssa.Value, name string) bool {
 }
 
 // dateChain: v is Format(UTC(Now(clock)), layout) + " GMT" with the RFC 7231
-// layout, or Format(..., the full layout including " GMT").
+// layout (or the full layout including " GMT"), read as a term so that locals
+// and small helper functions in between do not matter.
 func dateChain(v ssa.Value, clockParam string) (bool, string) {
-	layout := ""
-	suffix := ""
-	var f ssa.Value = v
-	if bo, ok := v.(*ssa.BinOp); ok && bo.Op == token.ADD {
-		s, ok := stringConst(bo.Y)
-		if !ok {
-			return false, "Date is a concatenation whose right side is not a constant"
-		}
-		suffix = s
-		f = bo.X
-	}
-	fc, ok := f.(*ssa.Call)
-	if !ok || staticName(fc) != "(time.Time).Format" {
-		return false, "Date value is not produced by time.Time.Format"
-	}
-	layout, _ = stringConst(fc.Call.Args[1])
-	if layout+suffix != "Mon, 02 Jan 2006 15:04:05 GMT" {
-		return false, fmt.Sprintf("layout %q + %q is not the RFC 7231 IMF-fixdate in GMT", layout, suffix)
-	}
-	uc, ok := fc.Call.Args[0].(*ssa.Call)
-	if !ok || staticName(uc) != "(time.Time).UTC" {
-		return false, "the time formatted is not converted with UTC() immediately before formatting (" + valueLabel(fc.Call.Args[0]) + ")"
-	}
-	nc, ok := uc.Call.Args[0].(*ssa.Call)
-	if !ok || !nc.Common().IsInvoke() || nc.Common().Method.Name() != "Now" {
-		return false, "the time is not taken directly from the clock's Now() (" + valueLabel(uc.Call.Args[0]) + ")"
-	}
-	// clock: parameter or field of the receiver
-	base := nc.Common().Value
-	if isParamNamed(base, clockParam) {
-		return true, ""
-	}
-	if _, ok := loadOfField(base, "clock"); ok {
-		return true, ""
-	}
-	return false, "Now() is not called on the application's clock"
+	return dateTerm(termOf(v, nil, 0), clockParam)
 }
